@@ -472,7 +472,9 @@ func runC19(cx *Ctx, r *Report) {
 		r.check(ok, "contents", e.Name, ev.Pos(cx), "stored value is built from the transaction bytes' hash, msg.Contents and the declared signer", "stored record is not built from tx hash, msg.Contents and the declared signer: "+val)
 		// the id handed back up the chain is the id the key was built from, wherever the Set
 		// is spelled (inline, or in a component that takes the entry with its id)
-		if kt := findSub(ev.Args[0], func(t *Term) bool { return t.Op == "call" && strings.HasSuffix(t.Name, "GetRecordKey") && len(t.Args) == 1 }); kt != nil {
+		if kt := findSub(ev.Args[0], func(t *Term) bool {
+			return t.Op == "call" && strings.HasSuffix(t.Name, "GetRecordKey") && len(t.Args) == 1
+		}); kt != nil {
 			id := kt.Args[0].LooseString()
 			for fr := ev.Fr; fr != nil && !idKeyChain; fr = fr.Parent {
 				n, same := 0, 0
